@@ -160,6 +160,25 @@ Definition os_mkdir (s : fs) (cwd : rpath) (p : upath) : sysres :=
   | WErr e => SErr e
   end.
 
+(* ---------- shutil.move (the part that can execute; copy fallback = error) ------------ *)
+Definition same_entry (s : fs) (cwd : rpath) (a b : upath) : bool :=
+  match resolve s cwd a true, resolve s cwd b true with
+  | WFound p _, WFound q _ => rpath_eqb p q
+  | _, _ => false
+  end.
+
+Definition is_link (s : fs) (cwd : rpath) (p : upath) : bool :=
+  match resolve s cwd p false with WFound _ (NLink _ _) => true | _ => false end.
+
+Definition shutil_move_fs (s : fs) (cwd : rpath) (src dst : upath) : sysres :=
+  if is_dir s cwd dst then
+    if same_entry s cwd src dst && negb (is_link s cwd src) then os_rename s cwd src dst
+    else
+      let real_dst := {| up_abs := up_abs dst; up_comps := up_comps dst ++ [last (up_comps src) []] |} in
+      if exists_ s cwd real_dst then SErr EEXIST     (* shutil.Error: an OSError, not a FileExistsError *)
+      else os_rename s cwd src real_dst
+  else os_rename s cwd src dst.
+
 (* ---------- os.path.realpath(strict=False), as Path.resolve() uses it --------- *)
 (* [path] is the real prefix built so far; a component that does not exist (or is not
    a link) is appended lexically; ".." pops lexically. *)
